@@ -573,12 +573,131 @@ ImplRejects(c) ==
     [] c.mut = "twin" -> c.scope = "empty-proposal-init-ballot-fact" \/ c.to = "empty-proposal-init-ballot-fact"
     [] OTHER -> TRUE
 
-VARIABLES case, step
-vars == <<case, step>>
+(* ------------------------------------------------------ validation history *)
+(* The catalogue above treats Valid(object, network id) as a function that is  *)
+(* evaluated once per mutated object. A node validates with ONE long-lived      *)
+(* process, and that process may carry state from one validation to the next    *)
+(* (this tree: base.DecodeAddress / DecodePublickey remember every decoded      *)
+(* string and its error in the package-wide objcache; a remembered "this sign   *)
+(* was verified" is the obvious next one). The statement leaves no room for     *)
+(* that state to show: the verdict on an object under a network id must not     *)
+(* depend on what was validated before.                                          *)
+(* A history is a sequence of validations by one process, each asking for the   *)
+(* genuine object G under its own network id or for the mutated one M of a      *)
+(* catalogue case (M = G under the other network id for the netid case), on a   *)
+(* freshly decoded copy or on the instance decoded earlier from the same bytes. *)
+(* The validator is a parameter: what it remembers (nothing; accepted requests; *)
+(* rejected requests; both; "early" = remembered before the check was made),    *)
+(* under which key (a set of components of the request) and where (process-wide *)
+(* or inside the decoded instance). TLC explores every validator against every  *)
+(* class of catalogue case and shows                                             *)
+(*   HistorySound      a verdict deviates from the isolated one only if the key  *)
+(*                     lacks the component the case changes (or the memo is      *)
+(*                     written before the check),                                *)
+(*   RepoIndependent   the validators of this tree (no memo of verdicts; decode  *)
+(*                     memo keyed on the whole string) are history independent,  *)
+(*   FamilySharp       (ASSUME) whatever any history of MaxHist validations      *)
+(*                     exposes, a history of the replayed family exposes too.    *)
+(* The histories of the reference validator are emitted (step) and replayed by   *)
+(* harness/internal/c28 for EVERY catalogue case in ONE process: per step a      *)
+(* fresh decode (or the earlier instance) + IsValid(network id); the genuine     *)
+(* object must pass at every position, the mutated one must get its isolated     *)
+(* verdict at every position.                                                    *)
+CONSTANTS MaxHist,      \* validations per history
+          Repeat        \* may a history ask twice in a row for the same thing (FALSE: G and M alternate)
+
+AllComp == {"fact", "kind", "sig", "signer", "node", "signed_at", "signs", "netid"}
+(* the component of a request in which the mutated object of a case differs from the genuine one *)
+CompOf(c) ==
+  CASE c.mut = "netid" -> "netid"
+    [] c.mut = "kind" -> "kind"
+    [] c.mut \in {"signs-drop-all", "signs-drop-one", "signs-dup", "signs-swap"} -> "signs"
+    [] c.mut = "field" /\ c.role \in {"field", "hash"} -> "fact"
+    [] c.mut = "field" -> c.role                 \* sig, signer, node, signed_at
+    [] OTHER -> "none"                           \* twin: two hashes are compared, nothing is validated
+(* class of a case as far as histories go: the changed component and the isolated verdict on M *)
+HistClass(c) == [comp |-> CompOf(c), rej |-> ImplRejects(c)]
+HistClasses == {HistClass(c) : c \in {x \in Cases : x.mut # "twin"}}
+
+Req == [r : {"G", "M"}, copy : {"fresh", "same"}]
+(* the bytes a request is decoded from: the netid case validates the genuine bytes under another id *)
+Bytes(cl, r) == IF r = "G" \/ cl.comp = "netid" THEN "g" ELSE "m"
+Feasible(cl, h) == \A i \in 1..Len(h) : h[i].copy = "same" => \E j \in 1..(i - 1) : Bytes(cl, h[j].r) = Bytes(cl, h[i].r)
+Alternates(h) == \A i \in 1..(Len(h) - 1) : h[i].r # h[i + 1].r
+AllHist(cl) == {h \in [1..MaxHist -> Req] : Feasible(cl, h)}
+(* the replayed family; both conditions are closed under prefixes and every prefix can be extended *)
+InFamily(cl, h) == Feasible(cl, h) /\ (Repeat \/ Alternates(h))
+Family(cl) == {h \in [1..MaxHist -> Req] : InFamily(cl, h)}
+
+(* isolated verdict (TRUE = accepted): what the first validation of a fresh process answers *)
+Iso(cl, r) == r = "G" \/ ~cl.rej
+
+KeyChoices == {AllComp} \cup {AllComp \ {x} : x \in AllComp}
+Validators == {[kind |-> "none", key |-> AllComp, scope |-> "process"]}
+              \cup [kind : {"pos", "neg", "both", "early"}, key : KeyChoices, scope : {"process", "instance"}]
+(* the validators of this tree: signatures and hashes are recomputed at every call; decoded address and key *)
+(* strings are remembered (value or error) under the whole string                                            *)
+RepoValidator(v) == v.kind = "none" \/ (v.kind = "both" /\ v.key = AllComp /\ v.scope = "process")
+
+S0 == [memo |-> {}, inst |-> [b \in {"g", "m"} |-> 0], n |-> 0, ok |-> TRUE]
+(* one validation by validator v in state st *)
+StepV(v, cl, st, q) ==
+  LET b   == Bytes(cl, q.r)
+      id  == IF q.copy = "same" THEN st.inst[b] ELSE st.n + 1
+      k   == [c |-> {<<x, IF q.r = "M" /\ x = cl.comp THEN "m" ELSE "g">> : x \in v.key},
+              i |-> IF v.scope = "instance" THEN id ELSE 0]
+      ok  == IF v.kind \in {"pos", "both", "early"} /\ <<k, TRUE>> \in st.memo THEN TRUE
+             ELSE IF v.kind \in {"neg", "both"} /\ <<k, FALSE>> \in st.memo THEN FALSE
+             ELSE Iso(cl, q.r)
+      add == CASE v.kind = "pos" -> IF ok THEN {<<k, TRUE>>} ELSE {}
+               [] v.kind = "neg" -> IF ok THEN {} ELSE {<<k, FALSE>>}
+               [] v.kind = "both" -> {<<k, ok>>}
+               [] v.kind = "early" -> {<<k, TRUE>>}
+               [] OTHER -> {}
+  IN [memo |-> st.memo \cup add, inst |-> [st.inst EXCEPT ![b] = id],
+      n |-> IF q.copy = "same" THEN st.n ELSE st.n + 1, ok |-> ok]
+
+(* does history h make validator v answer something else than the isolated verdict *)
+Exposes(v, cl, h) ==
+  LET run[i \in 0..Len(h)] == IF i = 0 THEN S0 ELSE LET s == run[i - 1] IN StepV(v, cl, s, h[i])
+  IN \E i \in 1..Len(h) : run[i].ok # Iso(cl, h[i].r)
+FamilySharp ==
+  \A cl \in HistClasses : \A v \in {x \in Validators : x.key \in {AllComp, AllComp \ {cl.comp}}} :
+     (\E h \in AllHist(cl) : Exposes(v, cl, h)) => (\E h \in Family(cl) : Exposes(v, cl, h))
+ASSUME FamilySharp
+
+VARIABLES mode,   \* "case": one state per catalogue case; "hist": a validating process
+          case, step,
+          hc,     \* class of the case the history is about
+          val,    \* the validator
+          vst,    \* its state
+          hist    \* the validations so far: [r, copy, ok]
+vars == <<mode, case, step, hc, val, vst, hist>>
 Out(c) == ToJson([kind |-> c.kind, mut |-> c.mut, path |-> c.path, role |-> c.role, cls |-> c.cls, scope |-> c.scope,
-                  rel |-> c.rel, to |-> c.to, ideal |-> IdealRejects(c), impl |-> ImplRejects(c)])
-Init == case \in Cases /\ step = Out(case)
-Next == UNCHANGED vars
+                  rel |-> c.rel, to |-> c.to, ideal |-> IdealRejects(c), impl |-> ImplRejects(c), comp |-> CompOf(c)])
+NoCase == [kind |-> "", mut |-> "history", path |-> <<>>, role |-> "", cls |-> "history", scope |-> "", rel |-> "",
+           outer |-> FALSE, to |-> ""]
+NoClass == [comp |-> "none", rej |-> TRUE]
+InitCase == /\ mode = "case" /\ case \in Cases /\ step = Out(case)
+            /\ hc = NoClass /\ val = [kind |-> "none", key |-> AllComp, scope |-> "process"] /\ vst = S0 /\ hist = <<>>
+InitHist == /\ mode = "hist" /\ case = NoCase /\ step = ""
+            /\ hc \in HistClasses /\ val \in Validators /\ vst = S0 /\ hist = <<>>
+Init == InitCase \/ InitHist
+
+ReqOf(e) == [r |-> e.r, copy |-> e.copy]
+(* the process validates once more; the histories are the prefixes of the family *)
+Validate(q) ==
+  /\ mode = "hist"
+  /\ Len(hist) < MaxHist
+  /\ InFamily(hc, Append([i \in 1..Len(hist) |-> ReqOf(hist[i])], q))
+  /\ LET s == StepV(val, hc, vst, q)
+         nh == Append(hist, [r |-> q.r, copy |-> q.copy, ok |-> s.ok])
+     IN /\ vst' = s
+        /\ hist' = nh
+        /\ step' = IF Len(nh) = MaxHist /\ val.kind = "none"
+                   THEN ToJson([hist |-> nh, comp |-> hc.comp, rej |-> hc.rej]) ELSE ""
+  /\ UNCHANGED <<mode, case, hc, val>>
+Next == \E q \in Req : Validate(q)
 Spec == Init /\ [][Next]_vars
 
 (* the declared coverage is sufficient: under ideal cryptography every case of  *)
@@ -590,5 +709,19 @@ CatalogueComplete ==
      l.cls = "content" => \E c \in Cases : c.kind = Schema[i].kind /\ c.path = l.p
 ASSUME CatalogueComplete
 (* candidates: where the transcription of the code admits what the ideal rejects *)
-ImplAgrees == ImplRejects(case) = IdealRejects(case)
+ImplAgrees == mode = "case" => ImplRejects(case) = IdealRejects(case)
+
+(* ---- history properties *)
+Deviates == \E i \in 1..Len(hist) : hist[i].ok # Iso(hc, hist[i].r)
+KeyedOnTooLittle == val.kind # "none" /\ hc.comp \notin val.key
+(* the statement: the verdict on an object does not depend on what was validated before. It holds for *)
+(* the validators of this tree, and for every memo whose key covers the whole request                 *)
+RepoIndependent == RepoValidator(val) => ~Deviates
+HistorySound == Deviates => (KeyedOnTooLittle \/ val.kind = "early")
+(* not an invariant of the validator space: SignedObjects_hist_cand.cfg expects a counterexample (a memo *)
+(* keyed without one component)                                                                        *)
+HistoryIndependent == ~Deviates
+(* a memo inside the instance is harmless for every component the bytes carry: only the network id is  *)
+(* not part of the instance                                                                            *)
+InstanceMemoOnlyNetid == (Deviates /\ val.scope = "instance" /\ val.kind # "early") => hc.comp = "netid"
 =============================================================================
